@@ -37,6 +37,7 @@ package fragmentation
 //@   loop 1 invariant implies(!used, forall(i, 0, rangeindex + 1, !old(overlaps(r.holes[i], first, last))))
 //@   loop 1 invariant implies(used, exists(i, 0, rangeindex + 1, old(overlaps(r.holes[i], first, last))))
 //@   loop 1 invariant forall(k, 0, rangeindex + 1, implies(old(overlaps(r.holes[k], first, last)), r.holes[k].deleted))
+//@   loop 1 invariant forall(j, rangeindex + 1, old(len(r.holes)), r.holes[j].first == old(r.holes[j].first) && r.holes[j].last == old(r.holes[j].last) && r.holes[j].deleted == old(r.holes[j].deleted))
 //@   modifies r.holes, r.deleted, elemscap(r.holes)
 
 // ---------------------------------------------------------------------------
